@@ -43,6 +43,7 @@ type Profile struct {
 	PSingle                                                   int  // extra chance of a 1-voter group
 	UniformFeatures                                           bool // all nodes share PreVote/CheckQuorum
 	UniformTicks                                              bool // all nodes share ElectionTick/HeartbeatTick
+	PBigGroup                                                 int  // chance of a group of 8..10 ids
 	AllowZeroApplyQuota                                       bool
 	PSnapStored                                               int
 	MaxPayload                                                int
@@ -54,7 +55,7 @@ var baseWeights = map[string]int{
 	"propose": 8, "proposebatch": 1, "proposeconf": 2, "transfer": 1, "readindex": 2,
 	"campaign": 1, "forget": 1, "unreachable": 1, "reportsnap": 3, "compact": 1,
 	"crash": 1, "restart": 4, "isolate": 1, "blocklink": 1, "heal": 2,
-	"duprecent": 2, "diverge": 1, "proposemixed": 1, "burst": 3, "slowdisk": 2,
+	"duprecent": 2, "diverge": 1, "proposemixed": 1, "burst": 3, "slowdisk": 2, "lagcompact": 1, "stallelect": 1,
 }
 
 func mkProfile(name string, over map[string]int, f func(p *Profile)) *Profile {
@@ -77,8 +78,8 @@ var Profiles = map[string]*Profile{
 	"base": mkProfile("base", nil, nil),
 	"elect": mkProfile("elect", map[string]int{"tick": 20, "tickall": 10, "tickcampaign": 6, "campaign": 4, "transfer": 4,
 		"dup": 6, "crash": 3, "restart": 8, "propose": 4, "forget": 2, "isolate": 3}, func(p *Profile) { p.PPreVote, p.PCheckQuorum = 50, 50 }),
-	"crash": mkProfile("crash", map[string]int{"crash": 6, "restart": 14, "step": 30, "service": 15, "propose": 10}, func(p *Profile) { p.PAsync = 60 }),
-	"snap": mkProfile("snap", map[string]int{"compact": 8, "isolate": 4, "heal": 4, "propose": 12, "proposeconf": 3, "dup": 5,
+	"crash": mkProfile("crash", map[string]int{"stallelect": 3, "crash": 6, "restart": 14, "step": 30, "service": 15, "propose": 10}, func(p *Profile) { p.PAsync = 60 }),
+	"snap": mkProfile("snap", map[string]int{"compact": 8, "lagcompact": 5, "isolate": 4, "heal": 4, "propose": 12, "proposeconf": 3, "dup": 5,
 		"reportsnap": 6, "crash": 2}, func(p *Profile) { p.PJoiner = 60 }),
 	"conf": mkProfile("conf", map[string]int{"proposeconf": 10, "tickcampaign": 4, "campaign": 3, "crash": 2, "restart": 6,
 		"isolate": 3, "compact": 3, "step": 20}, func(p *Profile) { p.PJoiner = 70 }),
@@ -88,6 +89,14 @@ var Profiles = map[string]*Profile{
 		func(p *Profile) { p.PTinyLimits = 85; p.MaxPayload = 300 }),
 	"all": mkProfile("all", map[string]int{"proposeconf": 4, "compact": 3, "crash": 2, "restart": 6, "readindex": 3, "transfer": 2,
 		"dup": 4, "isolate": 2}, func(p *Profile) { p.AllowZeroApplyQuota = true }),
+	// asnap: asynchronous storage threads that stall, combined with frequent
+	// compaction (snapshots) and frequent leader changes.
+	"asnap": mkProfile("asnap", map[string]int{"compact": 10, "slowdisk": 8, "lagcompact": 6, "stallelect": 5, "transfer": 6, "tickcampaign": 5, "campaign": 3, "propose": 12,
+		"isolate": 3, "heal": 4, "step": 10, "burst": 5, "reportsnap": 6, "dup": 4}, func(p *Profile) { p.PAsync = 90; p.PJoiner = 50 }),
+	// det: union profile with large groups (sets of more than 7 ids are
+	// iterated through different code paths) for the determinism check.
+	"det": mkProfile("det", map[string]int{"proposeconf": 4, "compact": 2, "crash": 1, "restart": 4, "readindex": 3, "transfer": 2, "dup": 3},
+		func(p *Profile) { p.PBigGroup = 35; p.PJoiner = 40 }),
 	"live": mkProfile("live", map[string]int{"proposeconf": 5, "compact": 3, "crash": 3, "restart": 4, "readindex": 2, "transfer": 3,
 		"dup": 3, "isolate": 3, "drop": 6, "propose": 12, "unreachable": 2}, func(p *Profile) { p.AllowZeroApplyQuota = true; p.PTinyLimits = 40 }),
 }
@@ -102,6 +111,9 @@ func DrawWorld(d Drawer, p *Profile) WorldOpts {
 	N := nTab[d.Int(0, len(nTab)-1, "N")]
 	if pct(d, p.PSingle, "single") {
 		N = pick(d, "singleN", 1, 2)
+	}
+	if p.PBigGroup > 0 && pct(d, p.PBigGroup, "biggroup") {
+		N = d.Int(8, 10, "bigN")
 	}
 	w := WorldOpts{Nodes: map[uint64]NodeOpts{}}
 	for i := 1; i <= N; i++ {
@@ -217,6 +229,8 @@ type CaseConfig struct {
 	Liveness bool
 	// Exclude known findings by construction (signatures).
 	Exclude map[string]bool
+	// RecordOut records every observable output of every node (C19).
+	RecordOut bool
 }
 
 // CaseResult is the outcome of one case.
@@ -275,7 +289,16 @@ func RunCase(d Drawer, cfg CaseConfig) (res CaseResult) {
 	}()
 	s = NewSim(d, w, mon)
 	s.Exclude = cfg.Exclude
+	s.OutOn = cfg.RecordOut
 	s.Boot()
+	// prelude (drawn, shrinks to "none"): most interesting states need an
+	// elected leader and some committed entries to start from
+	if d.Int(0, 9, "prelude") >= 3 {
+		s.ElectCleanly()
+		if d.Int(0, 1, "preburst") == 1 {
+			s.CommitBurst(cfg.Profile, d.Int(1, 5, "burstn"))
+		}
+	}
 	steps := d.Int(0, cfg.MaxSteps, "steps")
 	for i := 0; i < steps; i++ {
 		s.RandomAction(cfg.Profile)
@@ -365,6 +388,8 @@ func (s *Sim) RandomAction(p *Profile) {
 	})
 	add("burst", len(deliverable) > 0, func() { s.Burst(s.Nodes[s.Net.Pool[deliverable[d.Int(0, len(deliverable)-1, "flight")]].To]) })
 	add("diverge", len(up) >= 3, func() { s.Diverge(p) })
+	add("lagcompact", len(up) >= 2, func() { s.LagAndCompact(p) })
+	add("stallelect", len(asyncUp) > 0 && len(up) >= 2, func() { s.StallThroughElection(p, asyncUp[d.Int(0, len(asyncUp)-1, "node")]) })
 	add("proposemixed", len(up) > 0, func() { s.proposeMixed(s.proposerNode(up), p) })
 	add("drop", len(s.Net.Pool) > 0, func() { s.Drop(d.Int(0, len(s.Net.Pool)-1, "flight")) })
 	add("tick", len(up) > 0, func() { s.Tick(pickNode(up, "node")) })
@@ -844,5 +869,137 @@ func (s *Sim) Burst(n *Node) {
 	}
 	if n.Up && len(n.AppendQ) >= 2 {
 		s.Stats.inc("async.append_queue_ge2")
+	}
+}
+
+func (s *Sim) leaderNode() *Node {
+	for _, n := range s.upNodes() {
+		if n.RN.BasicStatus().RaftState == raft.StateLeader {
+			return n
+		}
+	}
+	return nil
+}
+
+// ElectCleanly lets one node time out and win an election undisturbed.
+func (s *Sim) ElectCleanly() {
+	up := s.upNodes()
+	if len(up) == 0 {
+		return
+	}
+	n := up[s.D.Int(0, len(up)-1, "electnode")]
+	s.begin("ElectCleanly(%d)", n.ID)
+	s.stabilize(3)
+	for i := 0; i < 3 && n.Up && s.leaderNode() == nil; i++ {
+		for j := 0; j < 2*n.Opts.ElectionTick+1 && n.Up; j++ {
+			before := n.RN.BasicStatus()
+			s.tick(n)
+			if !n.Up {
+				return
+			}
+			if after := n.RN.BasicStatus(); after.RaftState != before.RaftState || after.GetTerm() != before.GetTerm() {
+				break
+			}
+		}
+		s.stabilize(8)
+	}
+}
+
+// CommitBurst proposes k entries at the leader and lets them commit.
+func (s *Sim) CommitBurst(p *Profile, k int) {
+	l := s.leaderNode()
+	s.begin("CommitBurst(%d)", k)
+	if l == nil {
+		return
+	}
+	for i := 0; i < k && l.Up; i++ {
+		s.Propose(l, s.drawSize(p))
+	}
+	s.stabilize(6)
+}
+
+// LagAndCompact isolates a follower, commits entries without it, compacts the
+// leader's log past them and heals: the follower then needs a snapshot.
+func (s *Sim) LagAndCompact(p *Profile) {
+	d := s.D
+	l := s.leaderNode()
+	s.begin("LagAndCompact")
+	if l == nil {
+		return
+	}
+	var others []*Node
+	for _, n := range s.upNodes() {
+		if n.ID != l.ID {
+			others = append(others, n)
+		}
+	}
+	if len(others) == 0 {
+		return
+	}
+	f := others[d.Int(0, len(others)-1, "laggard")]
+	s.Stats.inc("macro.lagcompact")
+	for _, id := range s.IDs {
+		if id != f.ID {
+			s.Net.Blocked[[2]uint64{id, f.ID}] = true
+			s.Net.Blocked[[2]uint64{f.ID, id}] = true
+		}
+	}
+	k := d.Int(1, 4, "lagprops")
+	for i := 0; i < k && l.Up; i++ {
+		s.Propose(l, s.drawSize(p))
+	}
+	s.stabilize(6)
+	if l.Up {
+		if lo, hi := s.compactRange(l); hi > lo {
+			s.Compact(l, hi, hi)
+		}
+	}
+	s.Heal()
+	// let the leader notice the laggard (heartbeat round) but leave the rest
+	// to the random schedule
+	if l.Up {
+		for i := 0; i < l.Opts.HeartbeatTick && l.Up; i++ {
+			s.tick(l)
+		}
+		if l.Up {
+			s.service(l)
+		}
+	}
+}
+
+// StallThroughElection: an async node's append thread is stalled (slow disk)
+// while leadership changes; the node keeps receiving and handing out Readys,
+// so its storage acknowledgements arrive after its term has moved on.
+func (s *Sim) StallThroughElection(p *Profile, f *Node) {
+	d := s.D
+	s.begin("StallThroughElection(%d)", f.ID)
+	s.Stats.inc("macro.stallelect")
+	f.SlowAppend = true
+	if d.Int(0, 1, "lagfirst") == 1 {
+		if l := s.leaderNode(); l != nil && l.ID != f.ID {
+			k := d.Int(1, 3, "props")
+			for i := 0; i < k && l.Up; i++ {
+				s.Propose(l, s.drawSize(p))
+			}
+			s.stabilize(4)
+		}
+	}
+	if l := s.leaderNode(); l != nil {
+		var cands []uint64
+		for _, id := range s.IDs {
+			if id != l.ID && s.Nodes[id].Up {
+				cands = append(cands, id)
+			}
+		}
+		if len(cands) > 0 {
+			s.TransferLeader(l, cands[d.Int(0, len(cands)-1, "to")])
+		}
+	} else {
+		up := s.upNodes()
+		s.TickUntilCampaign(up[d.Int(0, len(up)-1, "cand")])
+	}
+	s.stabilize(6)
+	if f.Up {
+		f.SlowAppend = false
 	}
 }
